@@ -561,3 +561,180 @@ theorem getLast?_mem {l : List Str} {a : Str} (h : l.getLast? = some a) : a ∈ 
   exact List.mem_of_getLast? h
 
 end C32
+
+namespace C32
+open Grok
+
+/-! ### … and finds every reachable cycle (completeness of the closure) -/
+
+theorem mem_addNew {S xs : List Str} {x : Str} : x ∈ addNew S xs ↔ x ∈ S ∨ x ∈ xs := by
+  constructor
+  · exact addNew_mem
+  · unfold addNew
+    induction xs generalizing S with
+    | nil => intro h; rcases h with h | h; exact h; cases h
+    | cons y ys ih =>
+      intro h
+      simp only [List.foldl_cons]
+      apply ih
+      rcases h with h | h
+      · left; split
+        · exact h
+        · exact List.mem_append_left _ h
+      · rcases List.mem_cons.mp h with rfl | h'
+        · left; split
+          · rename_i hc; simpa using hc
+          · simp
+        · right; exact h'
+
+theorem mem_closeStep {P : Prims} {aliases : List (Str × Str)} {S : List Str} {x : Str} :
+    x ∈ closeStep P aliases S ↔ x ∈ S ∨ ∃ a ∈ S, x ∈ succs P aliases a := by
+  constructor
+  · exact closeStep_mem
+  · unfold closeStep
+    have gen : ∀ (l acc : List Str), (x ∈ acc ∨ ∃ a ∈ l, x ∈ succs P aliases a) →
+        x ∈ l.foldl (fun acc a => addNew acc (succs P aliases a)) acc := by
+      intro l
+      induction l with
+      | nil => intro acc h; rcases h with h | ⟨a, ha, _⟩; simpa using h; cases ha
+      | cons y ys ih =>
+        intro acc h
+        simp only [List.foldl_cons]
+        apply ih
+        rcases h with h | ⟨a, ha, hx⟩
+        · left; exact mem_addNew.mpr (Or.inl h)
+        · rcases List.mem_cons.mp ha with rfl | ha'
+          · left; exact mem_addNew.mpr (Or.inr hx)
+          · right; exact ⟨a, ha', hx⟩
+    intro h
+    exact gen S S h
+
+theorem subset_closure {P : Prims} {aliases : List (Str × Str)} : ∀ (n : Nat) (S : List Str) (x : Str),
+    x ∈ S → x ∈ closure P aliases n S := by
+  intro n
+  induction n with
+  | zero => intro S x h; simpa [closure] using h
+  | succ n ih => intro S x h; simp only [closure]; exact ih _ _ (mem_closeStep.mpr (Or.inl h))
+
+theorem refsOfPieces_key {P : Prims} {aliases : List (Str × Str)} {ps : List Piece} {b : Str}
+    (h : b ∈ refsOfPieces P aliases ps) : b ∈ aliases.map Prod.fst := by
+  induction ps with
+  | nil => simp [refsOfPieces] at h
+  | cons pc rest ih =>
+    cases pc with
+    | text s => exact ih (by simpa [refsOfPieces] using h)
+    | ph s =>
+      simp only [refsOfPieces] at h
+      split at h
+      · split at h
+        · rename_i n _ hsome
+          rcases List.mem_cons.mp h with rfl | h'
+          · obtain ⟨d, hd⟩ := Option.isSome_iff_exists.mp hsome
+            exact lookupAlias_mem hd
+          · exact ih h'
+        · exact ih h
+      · exact ih h
+
+theorem succs_key {P : Prims} {aliases : List (Str × Str)} {a b : Str} (h : b ∈ succs P aliases a) :
+    b ∈ aliases.map Prod.fst := by
+  obtain ⟨d, _, hb⟩ := succs_lookup h
+  exact refsOfPieces_key hb
+
+theorem reaches_key {P : Prims} {aliases : List (Str × Str)} {a b : Str} (h : Reaches P aliases a b) :
+    b ∈ aliases.map Prod.fst := by
+  induction h with
+  | step hb => exact succs_key hb
+  | trans _ _ ih => exact ih
+
+/-- number of defined aliases missing from `S`. -/
+def missing (aliases : List (Str × Str)) (S : List Str) : Nat :=
+  ((aliases.map Prod.fst).filter (fun k => !S.contains k)).length
+
+theorem closure_complete {P : Prims} {aliases : List (Str × Str)} :
+    ∀ (n : Nat) (S : List Str) (b : Str), missing aliases S ≤ n →
+      (b ∈ S ∨ ∃ s ∈ S, Reaches P aliases s b) → b ∈ closure P aliases n S := by
+  intro n
+  induction n with
+  | zero =>
+    intro S b hm hb
+    simp only [closure]
+    rcases hb with hb | ⟨s, _, hr⟩
+    · exact hb
+    · have hkey := reaches_key hr
+      have hz : missing aliases S = 0 := by omega
+      unfold missing at hz
+      have := List.length_eq_zero_iff.mp hz
+      have hnot : b ∉ (aliases.map Prod.fst).filter (fun k => !S.contains k) := by rw [this]; simp
+      simp only [List.mem_filter, Bool.not_eq_true', List.contains_eq_mem, decide_eq_false_iff_not, not_and,
+        Decidable.not_not] at hnot
+      exact hnot hkey
+  | succ n ih =>
+    intro S b hm hb
+    simp only [closure]
+    by_cases hstat : ∀ x, x ∈ closeStep P aliases S → x ∈ S
+    · -- stationary: S is closed under references
+      have hclosed : ∀ s c, s ∈ S → Reaches P aliases s c → c ∈ S := by
+        intro s c hs hr
+        induction hr with
+        | step hc => exact hstat _ (mem_closeStep.mpr (Or.inr ⟨_, hs, hc⟩))
+        | trans hb' _ ih' => exact ih' (hstat _ (mem_closeStep.mpr (Or.inr ⟨_, hs, hb'⟩)))
+      have hbS : b ∈ S := by
+        rcases hb with hb | ⟨s, hs, hr⟩
+        · exact hb
+        · exact hclosed s b hs hr
+      exact subset_closure n _ b (mem_closeStep.mpr (Or.inl hbS))
+    · -- progress: a new alias entered
+      have ⟨x, hx⟩ := Classical.not_forall.mp hstat
+      have ⟨hx1, hx2⟩ := Classical.not_imp.mp hx
+      have hxkey : x ∈ aliases.map Prod.fst := by
+        rcases mem_closeStep.mp hx1 with h | ⟨a, _, ha⟩
+        · exact absurd h hx2
+        · exact succs_key ha
+      have hlt : missing aliases (closeStep P aliases S) < missing aliases S := by
+        unfold missing
+        apply filter_length_lt _ _ _ _ x hxkey
+        · simpa using hx2
+        · simpa using hx1
+        · intro y hy
+          simp only [Bool.not_eq_true', List.contains_eq_mem, decide_eq_false_iff_not] at hy ⊢
+          exact fun h => hy (mem_closeStep.mpr (Or.inl h))
+      apply ih _ b (by omega)
+      rcases hb with hb | ⟨s, hs, hr⟩
+      · exact Or.inl (mem_closeStep.mpr (Or.inl hb))
+      · exact Or.inr ⟨s, mem_closeStep.mpr (Or.inl hs), hr⟩
+
+theorem missing_le (aliases : List (Str × Str)) (S : List Str) : missing aliases S ≤ aliases.length :=
+  remaining_le aliases S
+
+theorem reaches_of_walk {P : Prims} {aliases : List (Str × Str)} {d : Str} {w : List Str}
+    (hw : Walk P aliases d w) : ∀ {x b : Str}, lookupAlias aliases x = some d → b ∈ w → Reaches P aliases x b := by
+  induction hw with
+  | @one text a ha =>
+    intro x b hx hb
+    simp at hb; subst hb
+    exact .step (by simp [succs, hx, ha])
+  | @cons text y d' w' hy hd' _ ih =>
+    intro x b hx hb
+    have hyx : y ∈ succs P aliases x := by simp [succs, hx, hy]
+    rcases List.mem_cons.mp hb with rfl | hb'
+    · exact .step hyx
+    · exact .trans hyx (ih hd' hb')
+
+/-- a walk that repeats a name exhibits an alias that is reachable from the text and reaches itself. -/
+theorem cycle_of_walk {P : Prims} {aliases : List (Str × Str)} {text : Str} {w : List Str}
+    (hw : Walk P aliases text w) : ¬ w.Nodup →
+      ∃ a, (a ∈ refs P aliases text ∨ ∃ s ∈ refs P aliases text, Reaches P aliases s a) ∧ Reaches P aliases a a := by
+  induction hw with
+  | one _ => intro h; exact absurd (by simp) h
+  | @cons text x d w' hx hd hw' ih =>
+    intro hnd
+    by_cases hmem : x ∈ w'
+    · exact ⟨x, Or.inl hx, reaches_of_walk hw' hd hmem⟩
+    · have hnd' : ¬ w'.Nodup := fun h => hnd (List.nodup_cons.mpr ⟨hmem, h⟩)
+      obtain ⟨a, ha, hloop⟩ := ih hnd'
+      refine ⟨a, Or.inr ⟨x, hx, ?_⟩, hloop⟩
+      rcases ha with ha | ⟨s, hs, hr⟩
+      · exact .step (by simp [succs, hd, ha])
+      · exact .trans (by simp [succs, hd, hs]) hr
+
+end C32
